@@ -607,9 +607,63 @@ class FormRegister(Scenario):
         return "ok"
 
 
+class InputFileReuse(Scenario):
+    """one InputFile object serves a first ui.json (its validators get built), then is given a second ui.json with other
+    parameters: values for the second form are accepted iff they satisfy the second form's constraints, exactly as on a fresh
+    InputFile"""
+    pid = "C15"
+
+    def body(self, cx):
+        from copy import deepcopy
+        from geoh5py.workspace import Workspace
+        from geoh5py.ui_json import InputFile
+        from geoh5py.ui_json.constants import default_ui_json
+        from geoh5py.shared.exceptions import BaseValidationError
+        ws = Workspace()
+
+        def first():
+            ui = deepcopy(default_ui_json)
+            ui["geoh5"] = ws
+            ui["a"] = {"main": True, "label": "A", "value": 1}
+            return ui
+
+        def second():
+            ui = deepcopy(default_ui_json)
+            ui["geoh5"] = ws
+            ui["count_b"] = {"main": True, "label": "C", "value": 1}
+            ui["choice_b"] = {"main": True, "label": "Ch", "choiceList": ["a", "b"], "value": "a"}
+            ui["req_b"] = {"main": True, "label": "R", "value": 2.0}
+            ui["opt_b"] = {"main": True, "label": "O", "value": 3.0, "optional": True, "enabled": False}
+            return ui
+        cases = [("count_b", "text", False), ("count_b", 5, True), ("choice_b", "zz", False), ("choice_b", "b", True), ("req_b", None, False),
+                 ("req_b", 4.5, True), ("opt_b", None, True), ("count_b", None, False)]
+        key, value, valid = cases[int(cx.int("case", 0, len(cases)))]
+        used_first = bool(cx.bool("validators_built_for_the_first_form"))
+        reused = InputFile(ui_json=first())
+        if used_first:
+            _ = reused.data
+            reused.data = dict(reused.data)
+        reused.ui_json = second()
+        fresh = InputFile(ui_json=second())
+        base = dict(fresh.data)
+        verdicts = []
+        for f in (reused, fresh):
+            d = dict(base)
+            d[key] = value
+            try:
+                f.data = d
+                verdicts.append(True)
+            except BaseValidationError:
+                verdicts.append(False)
+        cx.prove(verdicts[1] == valid, f"fresh InputFile: {key} = {value!r} accepted iff valid", "reused validator")
+        cx.prove(verdicts[0] == verdicts[1], f"an InputFile that served another form before gives the same verdict on {key} = {value!r}",
+                 "reused validator")
+        return "ok"
+
+
 def main(tier, seed):
     rc1 = run_property(
-        "C15", [AssociationValidation(), RejectionByAnyError(), ObjectDataPairs(), FormRegister()], tier, seed,
+        "C15", [AssociationValidation(), RejectionByAnyError(), ObjectDataPairs(), FormRegister(), InputFileReuse()], tier, seed,
         assumptions=["association / property-group validators: real in-memory Workspace with a three-level tree; the referenced "
                      "parent, the value (entity or identifier) and the declared group type are symbolic choices, one path each",
                      "restricted parameters (choice list, object type uid, type list): three assignments chosen symbolically from 7-value "
@@ -617,7 +671,7 @@ def main(tier, seed):
         outside=["uuid enforcer on symbolic strings", "longer strings / larger integers / longer call histories"],
         bounds="parents {workspace, group, sub-group, object, other object} x values {groups, object, data, property group, "
                "unrelated object/data, entity of another workspace} x entity/identifier",
-        expected_outcomes={"AssociationValidation": {"ok"}, "RejectionByAnyError": {"ok"}, "ObjectDataPairs": {"ok"}, "FormRegister": {"ok"}}, jobs=1, validate_max=0,
+        expected_outcomes={"AssociationValidation": {"ok"}, "RejectionByAnyError": {"ok"}, "ObjectDataPairs": {"ok"}, "FormRegister": {"ok"}, "InputFileReuse": {"ok"}}, jobs=1, validate_max=0,
     )
     conds = CONDS + ((CONDS_THOROUGH + _thorough_variants()) if tier == "thorough" else [])
     rc2 = run_xh(
